@@ -121,18 +121,22 @@ static int upipe_row_join_set_flow_def(struct upipe *upipe,
         return UBASE_ERR_INVALID;
     UBASE_RETURN(uref_flow_match_def(flow_def, "pic."))
 
+    /* refuse before anything is changed */
+    uint64_t hsize, vsize;
+    struct urational fps;
+    UBASE_RETURN(uref_pic_flow_get_hsize(flow_def, &hsize));
+    UBASE_RETURN(uref_pic_flow_get_vsize(flow_def, &vsize));
+    UBASE_RETURN(uref_pic_flow_get_fps(flow_def, &fps));
+
     /* the request takes ownership of its flow format, the flow definition
      * still belongs to the caller */
     struct uref *flow_format = uref_dup(flow_def);
     if (unlikely(flow_format == NULL))
         return UBASE_ERR_ALLOC;
-    upipe_row_join_require_ubuf_mgr(upipe, flow_format);
-
-    UBASE_RETURN(uref_pic_flow_get_hsize(flow_def, &ctx->output_width));
-    UBASE_RETURN(uref_pic_flow_get_vsize(flow_def, &ctx->output_height));
-    struct urational fps;
-    UBASE_RETURN(uref_pic_flow_get_fps(flow_def, &fps));
+    ctx->output_width = hsize;
+    ctx->output_height = vsize;
     ctx->output_duration = fps.den * UCLOCK_FREQ / fps.num;
+    upipe_row_join_require_ubuf_mgr(upipe, flow_format);
 
     return UBASE_ERR_NONE;
 }
